@@ -104,6 +104,9 @@ impl World {
         total += case.dgrams.iter().map(|d| d.data_len as usize + d.host_len as usize).sum::<usize>();
         let link = SharedLink::new([case.cap[0].map(|c| c.max(1) as usize), case.cap[1].map(|c| c.max(1) as usize)]);
         link.0.lock().unwrap().max_message = crate::engine::MAX_SIM_MESSAGE + total;
+        for sd in 0..2 {
+            link.0.lock().unwrap().dir[sd].flush_waits = case.flush_waits[sd];
+        }
         let parking = Parking::default();
         let keep = Keeper(Default::default(), Rc::new(case.bridges.clone()));
         let mut exec = Exec::default();
@@ -116,6 +119,9 @@ impl World {
             let mut options = case.opts[side].options();
             if case.keepalive[side] {
                 options = options.keepalive_interval(KEEPALIVE_TICK.into());
+                if case.keepalive_timeout_ticks > 0 {
+                    options = options.keepalive_timeout((KEEPALIVE_TICK * case.keepalive_timeout_ticks as u32).into());
+                }
             }
             let (mux, taskdata) = Multiplexor::new_detailed::<_, std::time::Instant>(ws, options, rng);
             muxes[side] = Some(Rc::new(mux));
@@ -394,7 +400,8 @@ impl World {
         {
             let l = self.link.0.lock().unwrap();
             for d in 0..2 {
-                if !l.dir[d].inflight.is_empty() {
+                // (what a wedged sender has in flight sits in buffers the peer no longer reads)
+                if !l.dir[d].inflight.is_empty() && !l.dir[d].wedged {
                     v.push(Action::Deliver(d));
                 }
             }
@@ -428,6 +435,11 @@ impl World {
             let item = dir.inflight.pop_front();
             if let Some(w) = dir.send_waker.take() {
                 w.wake();
+            }
+            if dir.inflight.is_empty() {
+                if let Some(w) = dir.flush_waker.take() {
+                    w.wake();
+                }
             }
             item
         };
@@ -527,6 +539,11 @@ impl World {
                 if let Some(w) = d.send_waker.take() {
                     w.wake();
                 }
+            }
+            What::Wedge { side } => {
+                // no Fault event: by itself a sink that is not writable ends nothing (the cut points of C08 key on Fault events)
+                self.log.app(AppEv::Note(format!("sink of side {side} is not writable from now on")));
+                self.link.0.lock().unwrap().dir[side].wedged = true;
             }
             What::Blackhole { side } => {
                 self.log.push(Ev::Fault(format!("blackhole everything sent by {side}")));
